@@ -11,6 +11,10 @@ stripe_pad    cascades of SAME convolutions / pools with tall kernels (5, 7) who
               stripes other than the first and the last still need part of the top / bottom padding (cmd.pad_top/pad_bottom)
 scalar        a quantised scalar constant (shape [], zero point and scale of its own) as second or first operand:
               `ifm2_scalar` is the dequantised value, quantised again with the IFM2 quantisation by the register generator
+neg_alpha     (not in the rotation; profile `hl2npu:neg_alpha`) LEAKY_RELU with a NEGATIVE alpha: int8 / uint8 go through a table,
+              int16 was lowered to MIN, int32 MUL by the negative quantised multiplier, RELU, ADD - the MUL reached the register
+              generator with a negative OFM scale (finding int16-lrelu-negative-alpha-negative-ofm-scale; repaired by
+              constraint_alpha_valid, patch C16-20: the int16 operator stays on the CPU). Index 0 is the witness network.
 clamp         fused / stand-alone RELU-family activations behind operators that force the OFM zero point to 0 or override
               the OFM scale: average pools (with PAD, with QUANTIZE), LEAKY_RELU, ABS, resize, ADD/MUL with activation
 """
@@ -50,6 +54,44 @@ def build(rng, idx, family=None):
         import ta_lib
 
         return ta_lib.ta_net(rng, 7 * idx + 5)          # index 5 (mod 7) of TA_FAMILIES = resize_half_pixel
+    if fam == "neg_alpha":
+        dtype = "int16" if idx % 2 == 0 else rng.choice(["int8", "uint8", "int16"])
+        b = netgen.B(rng, f"hl{idx}_neg_alpha", dtype)
+        if idx == 0:
+            shape, alpha, si, so = [1, 8, 2, 8], -2.0, 0.01, 0.02
+        else:
+            shape = [1, rng.randint(1, 9), rng.randint(1, 9), rng.choice([1, 4, 8, 16, 20])]
+            alpha = rng.choice([-2.0, -0.5, -0.125, -1.0, -8.0, -0.999])
+            si, so = netgen.rand_scale(rng), None
+        b.net.desc.append(f"hl2npu family=neg_alpha dtype={dtype} alpha={alpha} in={shape}")
+        x = b.input(shape, scale=si, zp=0 if dtype == "int16" else None)
+        if idx and rng.random() < 0.4:
+            x = b.conv(x, shape[3], (1, 1), (1, 1), (1, 1), "SAME") or x
+        xt = b.t(x)
+        same = idx != 0 and rng.random() < 0.3          # equal input / output quantisation
+        y = b.fm(list(xt.shape), dtype, scale=xt.scales[0] if same else so, zp=xt.zps[0] if same else (0 if dtype == "int16" else None))
+        if idx % 5 == 3:
+            # PRELU with a constant uniform negative alpha: convert_prelu turns it into a LeakyRelu with `alpha_scaling` (explicit positive
+            # scale, negative scalar of the IFM type; for int16 an int16 MUL, no int32 path) - its operation list is legal on every tree
+            za = 0 if dtype == "int16" else rng.choice([0, 3, -5] if dtype == "int8" else [0, 100, 128])
+            lo_, hi_ = netgen._qrange(dtype)
+            q = max(lo_, za - rng.choice([1, 20, 100]))
+            al = b.const([1, 1, xt.shape[3]], dtype, np.full(xt.shape[3], q), [rng.choice([0.004, 0.01, 0.02])], [za])
+            b.net.desc.append(f"PRELU uniform alpha q={q} zp={za}")
+            b.net.ops.append(Op("PRELU", [x, al], [y], None))
+        else:
+            b.net.ops.append(Op("LEAKY_RELU", [x], [y], ("LeakyReluOptions", dict(Alpha=alpha))))
+        if idx and rng.random() < 0.5:
+            k = rng.choice(["relu", "conv", "lrelu"])
+            if k == "relu":
+                y = b.unary("RELU6", y)
+            elif k == "conv":
+                y = b.conv(y, 8, (1, 1), (1, 1), (1, 1), "SAME") or y
+            else:
+                z = b.fm(list(b.t(y).shape), dtype)
+                b.net.ops.append(Op("LEAKY_RELU", [y], [z], ("LeakyReluOptions", dict(Alpha=rng.choice([0.5, -0.5, -2.0])))))
+                y = z
+        return b.finish([y])
     dtype = rng.choice(["int8", "int8", "uint8", "int16"]) if fam in ("bcast_first", "const_first", "scalar") else rng.choice(["int8", "int8", "uint8"])
     b = netgen.B(rng, f"hl{idx}_{fam}", dtype)
     b.net.desc.append(f"hl2npu family={fam} dtype={dtype}")
